@@ -100,6 +100,17 @@ impl KBucket {
         KBucketEntry::NoSlot
     }
 
+    /// Insert a peer with a crafted key (verification only). Returns `false` if the bucket is full.
+    #[cfg(litep2p_verif)]
+    pub fn verif_push_raw(&mut self, mut peer: KademliaPeer, key: Key<PeerId>) -> bool {
+        if self.nodes.len() >= 20 {
+            return false;
+        }
+        peer.key = key;
+        self.nodes.push(peer);
+        true
+    }
+
     /// Get iterator over the k-bucket, sorting the k-bucket entries in increasing order
     /// by distance.
     pub fn closest_iter<K: Clone>(&self, target: &Key<K>) -> impl Iterator<Item = &KademliaPeer> {
